@@ -18,8 +18,10 @@ TEXT = {
                 "before the head of the queue; the queue holds every later policy / attestation entry'): each entry was accepted under the "
                 "policy and attestation state recorded last before it (the states loaded for the first entry if none is in range), or is "
                 "revoked, or is the fix of a revoked entry (verified under the states in force at that entry; unverified with F3), or is a "
-                "propagation entry (F2); inside the range that state is the declarative policyBefore / attBefore of Spec/C01 "
-                "(polInForce_eq_policyBefore, attInForce_eq_attBefore), so later or earlier states never legitimize an entry; and verifyEntry's acceptance means what the property says for the Git rule: a consulted "
+                "propagation entry (F2); that state IS the declarative policyBefore of Spec/C01 - the state recorded by the latest policy "
+                "entry strictly before the entry in the whole log, inside the range or before it (polInForce_eq_policyBefore, "
+                "initialPolicy_records, loadState_chain, C01_policy_in_force_is_policyBefore; attInForce_eq_attBefore inside the range) - "
+                "so later or earlier states never legitimize an entry; and verifyEntry's acceptance means what the property says for the Git rule: a consulted "
                 "rule is met by >= threshold distinct principals of its own, injectively credited through valid signatures over this entry / "
                 "this authorization or matched to code-review approvers (go_accept_rule_met, verifyObject_accept, C01_entry_accept), which "
                 "implies the declarative per-entry authorization of Spec/C01 - the principals contributed to EXACTLY this change "
@@ -29,9 +31,8 @@ TEXT = {
                 "code accepts what the declarative property (c01Sound) forbids, and the repaired variants reject. The declarative "
                 "property is evaluated by the driver on the verdict the REAL verifier returns for every generated history; the model "
                 "(open defects as explicit Variant flags) must reproduce every verdict and tip of the real code.",
-        "note": TB + "Not yet theorems: the same declarative link for file rules and for policies with global rules, and that the state LoadState "
-                "returns for the first entry of the range is the one recorded by the policy entry it was asked for (the chain walk of LoadState "
-                "is covered by C02's theorems and by the correspondence). "
+        "note": TB + "Not yet theorems: the same declarative link for file rules and for policies with global rules; the attestation state the "
+                "walk starts from (before the first in-range attestation entry) is tied to attBefore by the correspondence only. "
                 "F1 (fixed in /repo, 00d1364) and F4 (fixed, 8a14108) stay in the corpus as regression witnesses; F2, F3 are open findings reproduced on every run.",
         "technique": "Lean 4 proof (loop invariant by induction on fuel, queue-partition lemma for recovery) + differential correspondence with spec evaluated on the implementation",
     },
@@ -147,8 +148,10 @@ TEXT = {
                 "predicate (signer counting, reachability of delegated files, dangling files, version monotonicity) on every "
                 "verification the REAL verifier accepts, in full / latest-only / from-entry mode; the model must reproduce every verdict.",
         "note": TB + "Mergeability mode is covered under C19. F4 (in-range policy entries were not self-verified) was found, reproduced from "
-                "corpus/C02 and FIXED in /repo (8a14108); the witness stays as a regression case. Not yet a theorem: that the state LoadState returns for the FIRST entry of a range "
-                "is chained from the first policy entry of the log (C02_chain_sound covers the chain, not yet its composition with the loop).",
+                "corpus/C02 and FIXED in /repo (8a14108); the witness stays as a regression case. LoadState's own chain is exact (chainStates_exact, loadState_chain: every policy entry "
+                "up to the requested one was accepted by VerifyNewState of the state recorded by the policy entry immediately before it, from "
+                "the first policy entry of the log on; the result is the state the requested entry records and passed State.Verify), "
+                "assuming no propagation entries on the policy reference (decidable, policyRefOnlyB).",
         "technique": "Lean 4 proof (C05 soundness + counting, induction over the chain) + differential correspondence on forged chains",
     },
     "C11": {
